@@ -27,8 +27,289 @@ func randMethods(r *hx.Rand) string {
 	return strings.Join(ms, ",")
 }
 
-var sigAlgPool = []string{"rsa-sha2-256", "rsa-sha2-512", "ssh-rsa", "ssh-ed25519", "ecdsa-sha2-nistp256",
-	"rsa-sha2-256-cert-v01@openssh.com", "ssh-ed25519-cert-v01@openssh.com", "ssh-dss", "unknown-alg", ""}
+// every underlying algorithm of certKeyAlgoNames (each has a certificate algorithm the client derives),
+// two certificate names, an unknown name and the empty name
+var underlyingAlgos = []string{"rsa-sha2-256", "rsa-sha2-512", "ssh-rsa", "ssh-ed25519", "ecdsa-sha2-nistp256", "ecdsa-sha2-nistp384",
+	"ecdsa-sha2-nistp521", "ssh-dss", "sk-ssh-ed25519@openssh.com", "sk-ecdsa-sha2-nistp256@openssh.com"}
+var sigAlgPool = append(append([]string(nil), underlyingAlgos...),
+	"rsa-sha2-256-cert-v01@openssh.com", "ssh-ed25519-cert-v01@openssh.com", "unknown-alg", "")
+
+var tables *sauth.TableCov
+
+func clientTables() *sauth.TableCov {
+	t := sauth.NewTableCov()
+	t.Define("first-packet", "sa", "x7", "other")
+	t.Define("handleAuthResponse.arm", "banner", "extinfo", "failure", "partial", "success", "disconnect", "readerr", "other")
+	t.Define("confirmKeyAck.arm", "banner", "pkok.e", "pkok.t", "pkok.k", "pkok.a", "failure", "disconnect", "other")
+	t.Define("keyboard-interactive.arm", "banner", "extinfo", "inforeq", "inforeq-bad", "failure", "partial", "success", "disconnect", "other")
+	t.Define("certificateAlgo.underlying", underlyingAlgos...)
+	t.Define("signer-kind", "d", "a", "p", "m")
+	t.Define("signer-key", "1", "3", "4", "5", "6")
+	t.Define("method-ctor", "pw", "pwcb", "pk", "pkcb", "kbd", "rt")
+	t.Define("kbd-policy", "a", "w", "f")
+	t.Define("authcallback-decision", "n", "f", "u")
+	return t
+}
+
+// atomClass maps a script atom to the arm of the client's message switches it selects.
+func atomClass(atom string) string {
+	kind, arg, _ := strings.Cut(atom, ":")
+	switch kind {
+	case "b":
+		return "banner"
+	case "x7":
+		return "extinfo"
+	case "m":
+		if arg == "7" {
+			return "extinfo"
+		}
+		return "other"
+	case "f":
+		if strings.HasSuffix(atom, ":1") {
+			return "partial"
+		}
+		return "failure"
+	case "s":
+		return "success"
+	case "d":
+		return "disconnect"
+	case "re":
+		return "readerr"
+	case "ir":
+		return "inforeq"
+	case "irb", "irs", "irx":
+		return "inforeq-bad"
+	case "ok.e", "ok.t", "ok.k", "ok.a":
+		return "pk" + kind
+	}
+	return "other"
+}
+
+// recordRead notes which arm of which switch the packet the server is about to deliver selects.
+func recordRead(lastKind string, step int, atom string) {
+	c := atomClass(atom)
+	switch {
+	case step == 0:
+		switch c {
+		case "extinfo":
+			tables.Hit("first-packet", "x7")
+		default:
+			if atom == "sa" {
+				tables.Hit("first-packet", "sa")
+			} else {
+				tables.Hit("first-packet", "other")
+			}
+		}
+	case lastKind == "Q":
+		if c == "partial" {
+			c = "failure"
+		}
+		if c != "banner" && c != "failure" && c != "disconnect" && !strings.HasPrefix(c, "pkok") {
+			c = "other"
+		}
+		tables.Hit("confirmKeyAck.arm", c)
+	case lastKind == "KI" || lastKind == "IR":
+		if strings.HasPrefix(c, "pkok") || c == "readerr" {
+			c = "other"
+		}
+		tables.Hit("keyboard-interactive.arm", c)
+	case lastKind == "N" || lastKind == "PW" || lastKind == "SG":
+		if strings.HasPrefix(c, "pkok") || strings.HasPrefix(c, "inforeq") {
+			c = "other"
+		}
+		tables.Hit("handleAuthResponse.arm", c)
+	}
+	if kind, arg, _ := strings.Cut(atom, ":"); kind == "x7" {
+		for _, a := range strings.Split(arg, ",") {
+			tables.Hit("certificateAlgo.underlying", a)
+		}
+	}
+}
+
+func recordConfig(auth, acb string) {
+	rec := func(m string) {
+		for strings.HasPrefix(m, "rt") {
+			tables.Hit("method-ctor", "rt")
+			_, m, _ = strings.Cut(m, ":")
+		}
+		kind, arg, _ := strings.Cut(m, ":")
+		tables.Hit("method-ctor", kind)
+		if kind == "kbd" {
+			tables.Hit("kbd-policy", arg)
+		}
+		if (kind == "pk" || kind == "pkcb") && arg != "!" {
+			for _, l := range strings.Split(arg, "|") {
+				for _, sg := range strings.Split(l, "+") {
+					f := strings.Split(sg, "~")
+					if len(f) == 3 {
+						tables.Hit("signer-key", f[0])
+						tables.Hit("signer-kind", f[2][:1])
+					}
+				}
+			}
+		}
+	}
+	if auth != "-" {
+		for _, m := range strings.Split(auth, ";") {
+			rec(m)
+		}
+	}
+	if acb != "" && acb != "-" {
+		for _, d := range strings.Split(acb, ";") {
+			tables.Hit("authcallback-decision", d[:1])
+			if strings.HasPrefix(d, "u=") {
+				rec(d[2:])
+			}
+		}
+	}
+}
+
+// ---- feature pairs
+
+var clientFeatures = []string{"pw", "kbd", "pk", "pkcb", "retry", "authcb", "failing-cb", "cert-signer", "rsa-cert-signer",
+	"ext-info", "banner", "partial", "disconnect", "malformed-pkt", "pkok-mismatch", "inforeq"}
+
+func clientFeatureSet(auth, acb string, consumed []string, writes []string) map[string]bool {
+	f := map[string]bool{}
+	all := auth + ";" + acb
+	f["pw"] = strings.Contains(all, "pw:") || strings.Contains(all, "pwcb:")
+	f["kbd"] = strings.Contains(all, "kbd:")
+	f["pk"] = strings.Contains(all, "pk:")
+	f["pkcb"] = strings.Contains(all, "pkcb:")
+	f["retry"] = strings.Contains(all, "rt")
+	f["authcb"] = acb != ""
+	f["failing-cb"] = strings.Contains(all, "cb:!")
+	f["cert-signer"] = strings.Contains(all, "5~ssh-ed25519-cert") || strings.Contains(all, "6~ssh-rsa-cert")
+	f["rsa-cert-signer"] = strings.Contains(all, "6~ssh-rsa-cert")
+	for i, a := range consumed {
+		switch c := atomClass(a); {
+		case c == "extinfo" && i == 0:
+			f["ext-info"] = true
+		case c == "banner":
+			f["banner"] = true
+		case c == "partial":
+			f["partial"] = true
+		case c == "disconnect":
+			f["disconnect"] = true
+		case strings.HasPrefix(a, "m:"):
+			f["malformed-pkt"] = true
+		case c == "pkok.k" || c == "pkok.a" || c == "pkok.t":
+			f["pkok-mismatch"] = true
+		case c == "inforeq":
+			f["inforeq"] = true
+		}
+	}
+	return f
+}
+
+func clientPairStats(g *hx.Gen, f map[string]bool) {
+	var on []string
+	for _, k := range clientFeatures {
+		if f[k] {
+			on = append(on, k)
+		}
+	}
+	for i := range on {
+		for j := i + 1; j < len(on); j++ {
+			g.Stat("pair." + on[i] + "+" + on[j])
+		}
+	}
+}
+
+// forceAuth returns a configuration that has the configuration-level features in want.
+func forceAuth(r *hx.Rand, want map[string]bool) (auth, acb string) {
+	var ms []string
+	if want["failing-cb"] {
+		ms = append(ms, r.PickStr("pwcb:!", "pkcb:!"))
+	}
+	if want["pw"] {
+		ms = append(ms, "pw:secret")
+	}
+	if want["kbd"] || want["inforeq"] {
+		ms = append(ms, "kbd:a")
+	}
+	if want["rsa-cert-signer"] {
+		ms = append(ms, "pk:6~ssh-rsa-cert-v01@openssh.com~d")
+	} else if want["cert-signer"] {
+		ms = append(ms, "pk:5~ssh-ed25519-cert-v01@openssh.com~d+1~ssh-ed25519~d")
+	} else if want["pk"] || want["pkok-mismatch"] {
+		ms = append(ms, "pk:1~ssh-ed25519~d+4~ssh-rsa~d")
+	}
+	if want["pkcb"] {
+		ms = append(ms, "pkcb:3~ecdsa-sha2-nistp256~d|1~ssh-ed25519~a")
+	}
+	if len(ms) == 0 {
+		ms = append(ms, "pw:secret", "pk:1~ssh-ed25519~d")
+	}
+	hx.Shuffle(r, ms)
+	if want["retry"] {
+		ms[0] = "rt2:" + ms[0]
+	}
+	if want["authcb"] {
+		acb = r.PickStr("n;n;n;n", "n;u=pw:x;n", "u=kbd:a;n;n")
+	}
+	return strings.Join(ms, ";"), acb
+}
+
+// forcedPolicy: a server that lists every method after each failure and injects the wanted script-level
+// features at the first place where the client can take them.
+func forcedPolicy(r *hx.Rand, want map[string]bool, done map[string]bool, x *session, step int) string {
+	all := "password,publickey,keyboard-interactive"
+	once := func(f string) bool {
+		if want[f] && !done[f] {
+			done[f] = true
+			return true
+		}
+		return false
+	}
+	switch x.lastKind {
+	case "SR":
+		if step == 0 && once("ext-info") {
+			return "x7:rsa-sha2-512,ssh-ed25519,ecdsa-sha2-nistp256"
+		}
+		return "sa"
+	case "N":
+		return "f:" + all + ":0"
+	case "Q":
+		if once("pkok-mismatch") {
+			return r.PickStr("ok.k", "ok.a:ssh-dss", "ok.t")
+		}
+		if step > 3 && once("banner") {
+			return "b"
+		}
+		return r.PickStr("ok.e", "ok.e", "f:"+all+":0")
+	case "KI", "IR":
+		if once("inforeq") {
+			return "ir:" + r.PickStr("1", "2")
+		}
+	}
+	// a response to a complete request
+	if step > 2 && once("banner") {
+		return "b"
+	}
+	if step > 3 && once("malformed-pkt") {
+		return r.PickStr("m:51", "m:60", "m:53")
+	}
+	if once("partial") {
+		return "f:" + all + ":1"
+	}
+	if want["disconnect"] && !done["disconnect"] {
+		pending := false
+		for f := range want {
+			if f != "disconnect" && !done[f] && (f == "banner" || f == "partial" || f == "malformed-pkt" || f == "pkok-mismatch" || f == "inforeq") {
+				pending = true
+			}
+		}
+		if !pending || step > 14 {
+			done["disconnect"] = true
+			return "d"
+		}
+	}
+	if step > 40 {
+		return "s"
+	}
+	return "f:" + all + ":0"
+}
 
 func randSigAlgs(r *hx.Rand) string {
 	switch r.Intn(8) {
@@ -78,7 +359,14 @@ func randSigners(r *hx.Rand, g *hx.Gen) string {
 func randMethod(r *hx.Rand, g *hx.Gen) string {
 	var m string
 	reads := true
-	switch r.Intn(6) {
+	switch r.Intn(7) {
+	case 6:
+		if r.Bool() {
+			m = "pwcb:" + r.PickStr("secret", "!", "!")
+		} else {
+			m, reads = "pkcb:!", false
+		}
+		g.Stat("method.callback-ctor")
 	case 0:
 		m = "pw:" + r.PickStr("secret", "x")
 	case 1:
@@ -222,15 +510,18 @@ func genScripted(g *hx.Gen, n int) {
 		var script []string
 		step := 0
 		user := hx.Hex([]byte(hx.Pick(r, sauth.Users)))
+		recordConfig(auth, acb)
 		res, x := runScripted(user, auth, acb, func(x *session) (string, bool) {
 			if len(script) >= 400 {
 				return "", false
 			}
 			a := policy(r, mode, x, step)
+			recordRead(x.lastKind, step, a)
 			step++
 			script = append(script, a)
 			return a, true
 		})
+		clientPairStats(g, clientFeatureSet(auth, acb, script, x.writes))
 		// a few packets the client must never read
 		for k := r.Intn(3); k > 0; k-- {
 			script = append(script, hx.Pick(r, noise))
@@ -250,6 +541,45 @@ func genScripted(g *hx.Gen, n int) {
 			g.Emit("cauth user=%s auth=%s acb=%s script=%s", user, auth, acb, s)
 		} else {
 			g.Emit("cauth user=%s auth=%s script=%s", user, auth, s)
+		}
+	}
+}
+
+// genPairs: for every pair of client features, a few runs that have both (configuration-level features
+// by construction, script-level ones injected by the server policy at the first legal place).
+func genPairs(g *hx.Gen) {
+	r := g.R
+	for i := range clientFeatures {
+		for j := i + 1; j < len(clientFeatures); j++ {
+			for rep := 0; rep < 3; rep++ {
+				want := map[string]bool{clientFeatures[i]: true, clientFeatures[j]: true}
+				auth, acb := forceAuth(r, want)
+				done := map[string]bool{}
+				var script []string
+				step := 0
+				recordConfig(auth, acb)
+				_, x := runScripted("75", auth, acb, func(x *session) (string, bool) {
+					if len(script) >= 120 {
+						return "", false
+					}
+					a := forcedPolicy(r, want, done, x, step)
+					recordRead(x.lastKind, step, a)
+					step++
+					script = append(script, a)
+					return a, true
+				})
+				clientPairStats(g, clientFeatureSet(auth, acb, script, x.writes))
+				sc := "-"
+				if len(script) > 0 {
+					sc = strings.Join(script, ";")
+				}
+				if acb != "" {
+					g.Emit("cauth user=75 auth=%s acb=%s script=%s", auth, acb, sc)
+				} else {
+					g.Emit("cauth user=75 auth=%s script=%s", auth, sc)
+				}
+				g.Stat("pairs-forced")
+			}
 		}
 	}
 }
@@ -301,7 +631,7 @@ func genReal(g *hx.Gen, n int) {
 		ln := r.PickInt(1, 1, 2, 2, 3)
 		chain := make([]string, ln)
 		for j := range chain {
-			chain[j] = r.PickStr("password", "publickey", "keyboard-interactive")
+			chain[j] = r.PickStr("password", "publickey", "publickey", "keyboard-interactive", "gssapi-with-mic")
 		}
 		authKey := r.PickInt(1, 3, 4, 5, 6)
 		ca := "none"
@@ -323,12 +653,19 @@ func genReal(g *hx.Gen, n int) {
 		for _, m := range chain {
 			need[m] = true
 		}
-		flaw := r.Intn(6) // 0: none …
-		for _, m := range []string{"password", "publickey", "keyboard-interactive"} {
+		flaw := r.Intn(7) // 0, 6: none …
+		for _, m := range []string{"password", "publickey", "keyboard-interactive", "gssapi-with-mic"} {
 			if !need[m] && !r.Chance(1, 3) {
 				continue
 			}
 			switch m {
+			case "gssapi-with-mic":
+				c := "good"
+				if flaw == 5 {
+					c = "bad"
+				}
+				cli = append(cli, "gss:"+c)
+				g.Stat("real.gssapi")
 			case "password":
 				pw := "good"
 				if flaw == 1 {
@@ -382,15 +719,18 @@ func genReal(g *hx.Gen, n int) {
 		if r.Chance(1, 4) {
 			algs = r.PickStr("ssh-ed25519,rsa-sha2-512", "rsa-sha2-256,rsa-sha2-512,ecdsa-sha2-nistp256", "ssh-rsa,ssh-ed25519,ecdsa-sha2-nistp256", "rsa-sha2-512")
 		}
-		g.Emit("real chain=%s cli=%s auth=%d ca=%s algs=%s", strings.Join(chain, ","), strings.Join(cli, ";"), authKey, ca, algs)
+		g.Emit("real chain=%s cli=%s auth=%d ca=%s algs=%s ban=%s", strings.Join(chain, ","), strings.Join(cli, ";"), authKey, ca, algs, r.PickStr("0", "1"))
 		g.Stat("real")
 	}
 }
 
 func gen(g *hx.Gen) {
 	sauth.Init()
+	tables = clientTables()
+	defer func() { tables.Report(g) }()
 	if g.N == 0 {
 		genPick(g)
+		genPairs(g)
 	}
 	genScripted(g, g.Count(4000, 150000))
 	n := 120
